@@ -140,68 +140,7 @@ func checkSerialisationDeterminism(p *core.Program, r *core.Report) {
 			}
 		})
 	}
-	// state carried from one serialisation to the next: an object taken from a sync.Pool inside the closure
-	// must be reset before anything else is done with it (an error path of an earlier call may have left it dirty)
-	nPool := 0
-	for f := range reach {
-		if f.Blocks == nil || !core.IsRepo(f) {
-			continue
-		}
-		for _, g := range core.CallsTo(f, "sync.Pool.Get") {
-			nPool++
-			derived := map[ssa.Value]bool{g.(ssa.Value): true}
-			for changed := true; changed; {
-				changed = false
-				core.EachInstr(f, func(in ssa.Instruction) {
-					switch x := in.(type) {
-					case *ssa.TypeAssert:
-						if derived[x.X] && !derived[x] {
-							derived[x], changed = true, true
-						}
-					case *ssa.MakeInterface:
-						if derived[x.X] && !derived[x] {
-							derived[x], changed = true, true
-						}
-					case *ssa.Extract:
-						if derived[x.Tuple] && !derived[x] {
-							derived[x], changed = true, true
-						}
-					}
-				})
-			}
-			isReset := func(i ssa.Instruction) bool {
-				c, ok := i.(*ssa.Call)
-				if !ok {
-					return false
-				}
-				n := core.CalleeName(c)
-				return (n == "bytes.Buffer.Reset" || n == "bytes.Buffer.Truncate") && derived[core.CallRecv(c)]
-			}
-			var bad []string
-			core.EachInstr(f, func(in ssa.Instruction) {
-				c, ok := in.(ssa.CallInstruction)
-				if !ok || isReset(in) || in == g.(ssa.Instruction) {
-					return
-				}
-				if _, isDefer := in.(*ssa.Defer); isDefer {
-					return // handing the object back
-				}
-				uses := false
-				for _, a := range c.Common().Args {
-					if derived[a] {
-						uses = true
-					}
-				}
-				if c.Common().IsInvoke() && derived[c.Common().Value] {
-					uses = true
-				}
-				if uses && !core.MustPassBefore(in, isReset) {
-					bad = append(bad, p.Pos(in.Pos()))
-				}
-			})
-			r.Check(len(bad) == 0, "determinism/"+fname(f)+"/pooled-object-reset-first", "an object taken from a sync.Pool while serialising is reset before its first use: what an earlier (possibly failed) serialisation left in it must not become part of this one", p.Pos(g.Pos()), "", "used before Reset at "+strings.Join(bad, ", ")+": a failed write leaves the buffer dirty in the pool and its bytes are prepended to the next block that is serialised")
-		}
-	}
+	nPool := checkPooledObjectsReset(p, r, reach)
 	r.Analysed["pooled_objects_in_serialisation"] = nPool
 	r.Analysed["error_returning_functions_checked"] = checkErrorsNotSwallowedIn(p, r, bp7)
 	sort.Strings(names)
@@ -382,4 +321,71 @@ func sameFieldOfSameCall(a, b ssa.Value) bool {
 		return false
 	}
 	return core.CallRecv(ca) == core.CallRecv(cb) && core.NameIs(core.CalleeName(ca), routingPkg+".BundleDescriptor.MustBundle")
+}
+
+// checkPooledObjectsReset: see the comment inside; funcs is the set of functions to examine.
+func checkPooledObjectsReset(p *core.Program, r *core.Report, funcs map[*ssa.Function]bool) int {
+	// state carried from one serialisation to the next: an object taken from a sync.Pool inside the closure
+	// must be reset before anything else is done with it (an error path of an earlier call may have left it dirty)
+	nPool := 0
+	for f := range funcs {
+		if f.Blocks == nil || !core.IsRepo(f) {
+			continue
+		}
+		for _, g := range core.CallsTo(f, "sync.Pool.Get") {
+			nPool++
+			derived := map[ssa.Value]bool{g.(ssa.Value): true}
+			for changed := true; changed; {
+				changed = false
+				core.EachInstr(f, func(in ssa.Instruction) {
+					switch x := in.(type) {
+					case *ssa.TypeAssert:
+						if derived[x.X] && !derived[x] {
+							derived[x], changed = true, true
+						}
+					case *ssa.MakeInterface:
+						if derived[x.X] && !derived[x] {
+							derived[x], changed = true, true
+						}
+					case *ssa.Extract:
+						if derived[x.Tuple] && !derived[x] {
+							derived[x], changed = true, true
+						}
+					}
+				})
+			}
+			isReset := func(i ssa.Instruction) bool {
+				c, ok := i.(*ssa.Call)
+				if !ok {
+					return false
+				}
+				n := core.CalleeName(c)
+				return (n == "bytes.Buffer.Reset" || n == "bytes.Buffer.Truncate") && derived[core.CallRecv(c)]
+			}
+			var bad []string
+			core.EachInstr(f, func(in ssa.Instruction) {
+				c, ok := in.(ssa.CallInstruction)
+				if !ok || isReset(in) || in == g.(ssa.Instruction) {
+					return
+				}
+				if _, isDefer := in.(*ssa.Defer); isDefer {
+					return // handing the object back
+				}
+				uses := false
+				for _, a := range c.Common().Args {
+					if derived[a] {
+						uses = true
+					}
+				}
+				if c.Common().IsInvoke() && derived[c.Common().Value] {
+					uses = true
+				}
+				if uses && !core.MustPassBefore(in, isReset) {
+					bad = append(bad, p.Pos(in.Pos()))
+				}
+			})
+			r.Check(len(bad) == 0, "determinism/"+fname(f)+"/pooled-object-reset-first", "an object taken from a sync.Pool while serialising is reset before its first use: what an earlier (possibly failed) serialisation left in it must not become part of this one", p.Pos(g.Pos()), "", "used before Reset at "+strings.Join(bad, ", ")+": a failed write leaves the buffer dirty in the pool and its bytes are prepended to the next block that is serialised")
+		}
+	}
+	return nPool
 }
